@@ -232,6 +232,10 @@ def finish(prop, tier, seed, t0, res, audit_info, level_note):
     for f in violations:
         if f['sig'] in seen:
             continue
+        if len(seen) >= 5:
+            # further distinct failing inputs are counted in the evidence, not printed
+            seen.add(f['sig'])
+            continue
         seen.add(f['sig'])
         p = write_replay(prop, {'kind': 'oracle-failure', 'property': prop, 'what': f['what'], 'sig': f['sig'],
                                 'requests': f.get('reqs', []), 'detail': f.get('detail', ''), 'input': f.get('input', '')})
